@@ -11,14 +11,19 @@
 //! oracle (implementation alone): each answer equals the value computed here, in Rust, directly from
 //!         the supplied data (`expect`), with the BIP-341 annex rule; `sig_all_hash` inside a program
 //!         equals `CTxEnv::sighash_all`; `transaction_id` equals `Transaction::txid` and the double
-//!         SHA-256 of the transaction serialised here; 16 digest jets (`input_*s_hash`, `inputs_hash`,
-//!         `output_*s_hash`, `outputs_hash`, `issuance_range_proofs_hash`, `tappath_hash`) equal the
-//!         digests recomputed here from the supplied data (these 18 jets are not in the Lean model).
+//!         SHA-256 of the transaction serialised here; the 32 digest jets (24 digests without argument
+//!         from `output_amounts_hash` to `sig_all_hash`, `transaction_id`, `input_hash`,
+//!         `input_utxo_hash`, `issuance_hash`, `issuance_entropy/asset/token` per input, `output_hash`
+//!         per output) equal the digests recomputed here from the supplied data (`expect_digest`; the
+//!         issuance entropy, asset id and token id by the elements crate's own functions).  The digest
+//!         jets are ops too: the Lean model (`Env.jetD`) answers every one of them.
 //!
 //! Known finding F-C15 (`annex-single-item-0x50`): `get_annex` takes a single witness item starting
-//! 0x50 for an annex.  Exactly those answers (annex getter, one-element stack, first byte 0x50, the
-//! answer being what the code's rule gives) are reported under that class and left out of the
-//! correspondence ops; any other disagreement about an annex has the class `getter-…`.
+//! 0x50 for an annex.  Exactly those answers (annex getter, or a digest over the annexes —
+//! `input_annexes_hash`, `inputs_hash`, `tx_hash`, `sig_all_hash`, `input_hash i` — of an input whose
+//! stack is one element with first byte 0x50, the answer being what the code's rule gives) are reported
+//! under that class and left out of the correspondence ops; any other disagreement about an annex has
+//! the class `getter-…`.
 //! Second known finding (`is-fee-null-value`): `output_is_fee` on {empty script, explicit asset,
 //! NULL value} says "fee" (the C code copies a NULL amount as explicit zero); exactly that shape and
 //! answer is reported under that class (the model mirrors the C code, the op stays).
@@ -32,7 +37,7 @@ use simplicity::node::{CoreConstructible, SimpleFinalizer};
 use simplicity::{types, BitMachine, Cmr, ConstructNode, Value, Word};
 use std::sync::Arc;
 
-pub const RULE: &str = "generated Elements environments (0..6 inputs/outputs, pegins, new issuances and reissuances, explicit/confidential/null assets, values and nonces, scripts and proofs of many lengths incl. SHA-256 block boundaries, witness stacks with and without annex, all-bit sequences/outpoints, taproot paths 0..128, current index in and out of range) x every modelled getter x every index 0..n+1 and 2^32-1; a case is one (environment, jet, argument); non-trivial = the argument addresses an existing input/output/path element (or the jet has no argument); distinct by (environment text, jet, argument)";
+pub const RULE: &str = "generated Elements environments (0..6 inputs/outputs, pegins, new issuances and reissuances, explicit/confidential/null assets, values and nonces, scripts and proofs of many lengths incl. SHA-256 block boundaries, witness stacks with and without annex, all-bit sequences/outpoints, taproot paths 0..128, current index in and out of range) x every modelled getter and every digest jet x every index 0..n+1 and 2^32-1; a case is one (environment, jet, argument); non-trivial = the argument addresses an existing input/output/path element (or the jet has no argument); distinct by (environment text, jet, argument)";
 
 type N<'b> = Arc<ConstructNode<'b>>;
 
@@ -302,8 +307,12 @@ enum Fam {
     NullDatum,
     Tappath,
     TotalFee,
-    /// compared with another route of the implementation, not modelled in Lean
-    OracleOnly,
+    /// a digest jet without argument (Lean `Env.jetD (.nullary ..)`)
+    Digest,
+    /// a digest jet with an input index
+    DigestIn,
+    /// a digest jet with an output index
+    DigestOut,
 }
 
 #[derive(Clone, Debug, PartialEq)]
@@ -378,24 +387,38 @@ const JETS: &[(&str, Elements, Fam, &str)] = &[
     ("output_null_datum", Elements::OutputNullDatum, Fam::NullDatum, ""),
     ("tappath", Elements::Tappath, Fam::Tappath, ""),
     ("total_fee", Elements::TotalFee, Fam::TotalFee, ""),
-    ("sig_all_hash", Elements::SigAllHash, Fam::OracleOnly, ""),
-    ("transaction_id", Elements::TransactionId, Fam::OracleOnly, ""),
-    ("input_outpoints_hash", Elements::InputOutpointsHash, Fam::OracleOnly, ""),
-    ("input_amounts_hash", Elements::InputAmountsHash, Fam::OracleOnly, ""),
-    ("input_scripts_hash", Elements::InputScriptsHash, Fam::OracleOnly, ""),
-    ("input_utxos_hash", Elements::InputUtxosHash, Fam::OracleOnly, ""),
-    ("input_sequences_hash", Elements::InputSequencesHash, Fam::OracleOnly, ""),
-    ("input_annexes_hash", Elements::InputAnnexesHash, Fam::OracleOnly, ""),
-    ("input_script_sigs_hash", Elements::InputScriptSigsHash, Fam::OracleOnly, ""),
-    ("inputs_hash", Elements::InputsHash, Fam::OracleOnly, ""),
-    ("issuance_range_proofs_hash", Elements::IssuanceRangeProofsHash, Fam::OracleOnly, ""),
-    ("output_amounts_hash", Elements::OutputAmountsHash, Fam::OracleOnly, ""),
-    ("output_nonces_hash", Elements::OutputNoncesHash, Fam::OracleOnly, ""),
-    ("output_scripts_hash", Elements::OutputScriptsHash, Fam::OracleOnly, ""),
-    ("output_range_proofs_hash", Elements::OutputRangeProofsHash, Fam::OracleOnly, ""),
-    ("output_surjection_proofs_hash", Elements::OutputSurjectionProofsHash, Fam::OracleOnly, ""),
-    ("outputs_hash", Elements::OutputsHash, Fam::OracleOnly, ""),
-    ("tappath_hash", Elements::TappathHash, Fam::OracleOnly, ""),
+    ("sig_all_hash", Elements::SigAllHash, Fam::Digest, ""),
+    ("transaction_id", Elements::TransactionId, Fam::Digest, ""),
+    ("input_outpoints_hash", Elements::InputOutpointsHash, Fam::Digest, ""),
+    ("input_amounts_hash", Elements::InputAmountsHash, Fam::Digest, ""),
+    ("input_scripts_hash", Elements::InputScriptsHash, Fam::Digest, ""),
+    ("input_utxos_hash", Elements::InputUtxosHash, Fam::Digest, ""),
+    ("input_sequences_hash", Elements::InputSequencesHash, Fam::Digest, ""),
+    ("input_annexes_hash", Elements::InputAnnexesHash, Fam::Digest, ""),
+    ("input_script_sigs_hash", Elements::InputScriptSigsHash, Fam::Digest, ""),
+    ("inputs_hash", Elements::InputsHash, Fam::Digest, ""),
+    ("issuance_asset_amounts_hash", Elements::IssuanceAssetAmountsHash, Fam::Digest, ""),
+    ("issuance_token_amounts_hash", Elements::IssuanceTokenAmountsHash, Fam::Digest, ""),
+    ("issuance_range_proofs_hash", Elements::IssuanceRangeProofsHash, Fam::Digest, ""),
+    ("issuance_blinding_entropy_hash", Elements::IssuanceBlindingEntropyHash, Fam::Digest, ""),
+    ("issuances_hash", Elements::IssuancesHash, Fam::Digest, ""),
+    ("output_amounts_hash", Elements::OutputAmountsHash, Fam::Digest, ""),
+    ("output_nonces_hash", Elements::OutputNoncesHash, Fam::Digest, ""),
+    ("output_scripts_hash", Elements::OutputScriptsHash, Fam::Digest, ""),
+    ("output_range_proofs_hash", Elements::OutputRangeProofsHash, Fam::Digest, ""),
+    ("output_surjection_proofs_hash", Elements::OutputSurjectionProofsHash, Fam::Digest, ""),
+    ("outputs_hash", Elements::OutputsHash, Fam::Digest, ""),
+    ("tx_hash", Elements::TxHash, Fam::Digest, ""),
+    ("tapleaf_hash", Elements::TapleafHash, Fam::Digest, ""),
+    ("tappath_hash", Elements::TappathHash, Fam::Digest, ""),
+    ("tap_env_hash", Elements::TapEnvHash, Fam::Digest, ""),
+    ("input_hash", Elements::InputHash, Fam::DigestIn, ""),
+    ("input_utxo_hash", Elements::InputUtxoHash, Fam::DigestIn, ""),
+    ("issuance_hash", Elements::IssuanceHash, Fam::DigestIn, ""),
+    ("issuance_entropy", Elements::IssuanceEntropy, Fam::DigestIn, ""),
+    ("issuance_asset", Elements::IssuanceAsset, Fam::DigestIn, ""),
+    ("issuance_token", Elements::IssuanceToken, Fam::DigestIn, ""),
+    ("output_hash", Elements::OutputHash, Fam::DigestOut, ""),
 ];
 
 fn jet_by_name(n: &str) -> Option<&'static (&'static str, Elements, Fam, &'static str)> {
@@ -404,7 +427,7 @@ fn jet_by_name(n: &str) -> Option<&'static (&'static str, Elements, Fam, &'stati
 
 fn arg_parse(f: Fam, s: &str) -> Option<Arg> {
     match f {
-        Fam::Input | Fam::Output => Some(Arg::U32(s.parse().ok()?)),
+        Fam::Input | Fam::Output | Fam::DigestIn | Fam::DigestOut => Some(Arg::U32(s.parse().ok()?)),
         Fam::Tappath => Some(Arg::U8(s.parse().ok()?)),
         Fam::TotalFee => Some(Arg::H(unhex32(s)?)),
         Fam::NullDatum => {
@@ -781,119 +804,187 @@ fn txid_of(m: &MEnv) -> [u8; 32] {
     h(&h(&b))
 }
 
-/// `code_annex`: use the code's annex rule instead of BIP-341's (to recognise the known finding)
-fn digest(m: &MEnv, name: &str, code_annex: bool) -> [u8; 32] {
-    let nin = shown_inputs(m);
-    let ins = || m.inputs[..nin].iter().zip(m.utxos[..nin].iter());
-    let annex = |i: &MIn| -> Option<Vec<u8>> {
-        if code_annex {
-            i.wit.last().filter(|l| l.first() == Some(&0x50)).map(|l| l[1..].to_vec())
-        } else {
-            bip341_annex(&i.wit).map(|a| a.to_vec())
+/// entropy, asset id and token id of an issuance, by the elements crate's own functions
+fn iss_ids(i: &MIn) -> Option<([u8; 32], [u8; 32], [u8; 32])> {
+    let k = iss_kind(i);
+    if k == IssKind::No {
+        return None;
+    }
+    let entropy = if k == IssKind::New {
+        elements::AssetId::generate_asset_entropy(
+            elements::OutPoint { txid: elements::Txid::from_byte_array(i.txid), vout: i.vout },
+            elements::ContractHash::from_byte_array(i.entropy),
+        )
+    } else {
+        elements::AssetEntropy::from_byte_array(i.entropy)
+    };
+    let asset = elements::AssetId::from_entropy(entropy);
+    let token = elements::AssetId::reissuance_token_from_entropy(entropy, is_conf(&i.amount));
+    Some((entropy.to_byte_array(), asset.to_byte_array(), token.to_byte_array()))
+}
+
+/// the bytes one input contributes to each of the per-input digests of the Simplicity
+/// specification (`code_annex`: use the code's annex rule instead of BIP-341's, to recognise the
+/// known finding)
+struct InPieces {
+    outpoint: Vec<u8>,
+    amt: Vec<u8>,
+    script: Vec<u8>,
+    seq: Vec<u8>,
+    annex: Vec<u8>,
+    script_sig: Vec<u8>,
+    iss_asset: Vec<u8>,
+    iss_token: Vec<u8>,
+    iss_proof: Vec<u8>,
+    iss_blind: Vec<u8>,
+}
+fn in_pieces(i: &MIn, u: &MUtxo, code_annex: bool) -> InPieces {
+    let mut outpoint = match &i.pegin {
+        Some(g) => [&[1u8][..], g].concat(),
+        None => vec![0],
+    };
+    outpoint.extend_from_slice(&i.txid);
+    outpoint.extend_from_slice(&i.vout.to_be_bytes());
+    let ann: Option<Vec<u8>> = if code_annex {
+        i.wit.last().filter(|l| l.first() == Some(&0x50)).map(|l| l[1..].to_vec())
+    } else {
+        bip341_annex(&i.wit).map(|a| a.to_vec())
+    };
+    let annex = match ann {
+        Some(a) => [&[1u8][..], &h(&a)].concat(),
+        None => vec![0],
+    };
+    let k = iss_kind(i);
+    let (iss_asset, iss_token, iss_blind) = match iss_ids(i) {
+        None => (vec![0, 0], vec![0, 0], vec![0]),
+        Some((_, asset, token)) => {
+            let a = [&[1u8][..], &asset, &ser_amt_digest(&i.amount)].concat();
+            // the token amount of a reissuance is shown as explicit zero
+            let t = [&[1u8][..], &token, &ser_amt_digest(if k == IssKind::New { &i.keys } else { &Amt::Explicit(0) })].concat();
+            let b = if k == IssKind::New { [&[1u8][..], &[0u8; 32], &i.entropy].concat() } else { [&[1u8][..], &i.nonce, &i.entropy].concat() };
+            (a, t, b)
         }
     };
-    let mut b: Vec<u8> = vec![];
-    match name {
-        "input_outpoints_hash" => {
-            for (i, _) in ins() {
-                match &i.pegin {
-                    Some(g) => {
-                        b.push(1);
-                        b.extend_from_slice(g);
-                    }
-                    None => b.push(0),
+    let iss_proof = [
+        h(if k != IssKind::No && is_conf(&i.amount) { &i.amount_rp } else { &[] }),
+        h(if k == IssKind::New && is_conf(&i.keys) { &i.keys_rp } else { &[] }),
+    ]
+    .concat();
+    InPieces {
+        outpoint,
+        amt: [ser_conf(&u.asset, 0x0a), ser_amt_digest(&u.value)].concat(),
+        script: h(&u.spk).to_vec(),
+        seq: i.seq.to_be_bytes().to_vec(),
+        annex,
+        script_sig: h(&i.script_sig).to_vec(),
+        iss_asset,
+        iss_token,
+        iss_proof,
+        iss_blind,
+    }
+}
+struct OutPieces {
+    amt: Vec<u8>,
+    nonce: Vec<u8>,
+    script: Vec<u8>,
+    range: Vec<u8>,
+    surj: Vec<u8>,
+}
+fn out_pieces(o: &MOut) -> OutPieces {
+    OutPieces {
+        amt: [ser_conf(&o.asset, 0x0a), ser_amt_digest(&o.value)].concat(),
+        nonce: ser_conf(&o.nonce, 0x02),
+        script: h(&o.spk).to_vec(),
+        range: h(if is_conf(&o.value) { &o.range } else { &[] }).to_vec(),
+        surj: h(if matches!(o.asset, Conf::Conf(..)) { &o.surj } else { &[] }).to_vec(),
+    }
+}
+
+/// the digests without argument, from the supplied data
+fn digest(m: &MEnv, name: &str, code_annex: bool) -> [u8; 32] {
+    let nin = shown_inputs(m);
+    let ins = || m.inputs[..nin].iter().zip(m.utxos[..nin].iter()).map(|(i, u)| in_pieces(i, u, code_annex));
+    let outs = || m.outputs.iter().map(out_pieces);
+    let sub = |names: &[&str]| -> Vec<u8> { names.iter().flat_map(|n| digest(m, n, code_annex)).collect() };
+    let b: Vec<u8> = match name {
+        "input_outpoints_hash" => ins().flat_map(|p| p.outpoint).collect(),
+        "input_amounts_hash" => ins().flat_map(|p| p.amt).collect(),
+        "input_scripts_hash" => ins().flat_map(|p| p.script).collect(),
+        "input_utxos_hash" => sub(&["input_amounts_hash", "input_scripts_hash"]),
+        "input_sequences_hash" => ins().flat_map(|p| p.seq).collect(),
+        "input_annexes_hash" => ins().flat_map(|p| p.annex).collect(),
+        "input_script_sigs_hash" => ins().flat_map(|p| p.script_sig).collect(),
+        "inputs_hash" => sub(&["input_outpoints_hash", "input_sequences_hash", "input_annexes_hash"]),
+        "issuance_asset_amounts_hash" => ins().flat_map(|p| p.iss_asset).collect(),
+        "issuance_token_amounts_hash" => ins().flat_map(|p| p.iss_token).collect(),
+        "issuance_range_proofs_hash" => ins().flat_map(|p| p.iss_proof).collect(),
+        "issuance_blinding_entropy_hash" => ins().flat_map(|p| p.iss_blind).collect(),
+        "issuances_hash" => sub(&["issuance_asset_amounts_hash", "issuance_token_amounts_hash", "issuance_range_proofs_hash", "issuance_blinding_entropy_hash"]),
+        "output_amounts_hash" => outs().flat_map(|p| p.amt).collect(),
+        "output_nonces_hash" => outs().flat_map(|p| p.nonce).collect(),
+        "output_scripts_hash" => outs().flat_map(|p| p.script).collect(),
+        "output_range_proofs_hash" => outs().flat_map(|p| p.range).collect(),
+        "output_surjection_proofs_hash" => outs().flat_map(|p| p.surj).collect(),
+        "outputs_hash" => sub(&["output_amounts_hash", "output_nonces_hash", "output_scripts_hash", "output_range_proofs_hash"]),
+        "tx_hash" => {
+            let mut b = m.version.to_be_bytes().to_vec();
+            b.extend_from_slice(&m.lock_time.to_be_bytes());
+            b.extend(sub(&["inputs_hash", "outputs_hash", "issuances_hash", "output_surjection_proofs_hash", "input_utxos_hash"]));
+            b
+        }
+        "tapleaf_hash" => {
+            // BIP-341 tagged hash of (leaf version, compact size 32, the script = the CMR)
+            let tag = h(b"TapLeaf/elements");
+            [&tag[..], &tag, &[m.cb0 & 0xfe, 32], &m.cmr].concat()
+        }
+        "tappath_hash" => m.path.concat(),
+        "tap_env_hash" => [&sub(&["tapleaf_hash", "tappath_hash"])[..], &m.key].concat(),
+        "sig_all_hash" => [&m.genesis[..], &m.genesis, &sub(&["tx_hash", "tap_env_hash"]), &m.ix.to_be_bytes()].concat(),
+        "transaction_id" => return txid_of(m),
+        _ => unreachable!(),
+    };
+    h(&b)
+}
+
+/// what a digest jet has to return, from the supplied data
+fn expect_digest(m: &MEnv, name: &str, fam: Fam, arg: &Arg, code_annex: bool) -> Option<Vec<bool>> {
+    match (fam, arg) {
+        (Fam::Digest, _) => Some(bits(&digest(m, name, code_annex))),
+        (Fam::DigestIn, Arg::U32(i)) => {
+            let k = *i as usize;
+            Some(opt((k < shown_inputs(m)).then(|| {
+                let p = in_pieces(&m.inputs[k], &m.utxos[k], code_annex);
+                let ids = iss_ids(&m.inputs[k]);
+                match name {
+                    "input_hash" => sha(&[p.outpoint, p.seq, p.annex].concat()),
+                    "input_utxo_hash" => sha(&[p.amt, p.script].concat()),
+                    "issuance_hash" => sha(&[p.iss_asset, p.iss_token, p.iss_proof, p.iss_blind].concat()),
+                    "issuance_entropy" => opt(ids.map(|t| bits(&t.0))),
+                    "issuance_asset" => opt(ids.map(|t| bits(&t.1))),
+                    "issuance_token" => opt(ids.map(|t| bits(&t.2))),
+                    _ => unreachable!(),
                 }
-                b.extend_from_slice(&i.txid);
-                b.extend_from_slice(&i.vout.to_be_bytes());
-            }
+            })))
         }
-        "input_amounts_hash" => {
-            for (_, u) in ins() {
-                b.extend(ser_conf(&u.asset, 0x0a));
-                b.extend(ser_amt_digest(&u.value));
-            }
-        }
-        "input_scripts_hash" => {
-            for (_, u) in ins() {
-                b.extend_from_slice(&h(&u.spk));
-            }
-        }
-        "input_utxos_hash" => {
-            b.extend_from_slice(&digest(m, "input_amounts_hash", code_annex));
-            b.extend_from_slice(&digest(m, "input_scripts_hash", code_annex));
-        }
-        "input_sequences_hash" => {
-            for (i, _) in ins() {
-                b.extend_from_slice(&i.seq.to_be_bytes());
-            }
-        }
-        "input_annexes_hash" => {
-            for (i, _) in ins() {
-                match annex(i) {
-                    Some(a) => {
-                        b.push(1);
-                        b.extend_from_slice(&h(&a));
-                    }
-                    None => b.push(0),
-                }
-            }
-        }
-        "input_script_sigs_hash" => {
-            for (i, _) in ins() {
-                b.extend_from_slice(&h(&i.script_sig));
-            }
-        }
-        "inputs_hash" => {
-            b.extend_from_slice(&digest(m, "input_outpoints_hash", code_annex));
-            b.extend_from_slice(&digest(m, "input_sequences_hash", code_annex));
-            b.extend_from_slice(&digest(m, "input_annexes_hash", code_annex));
-        }
-        "issuance_range_proofs_hash" => {
-            for (i, _) in ins() {
-                let k = iss_kind(i);
-                b.extend_from_slice(&h(if k != IssKind::No && is_conf(&i.amount) { &i.amount_rp } else { &[] }));
-                b.extend_from_slice(&h(if k == IssKind::New && is_conf(&i.keys) { &i.keys_rp } else { &[] }));
-            }
-        }
-        "output_amounts_hash" => {
-            for o in &m.outputs {
-                b.extend(ser_conf(&o.asset, 0x0a));
-                b.extend(ser_amt_digest(&o.value));
-            }
-        }
-        "output_nonces_hash" => {
-            for o in &m.outputs {
-                b.extend(ser_conf(&o.nonce, 0x02));
-            }
-        }
-        "output_scripts_hash" => {
-            for o in &m.outputs {
-                b.extend_from_slice(&h(&o.spk));
-            }
-        }
-        "output_range_proofs_hash" => {
-            for o in &m.outputs {
-                b.extend_from_slice(&h(if is_conf(&o.value) { &o.range } else { &[] }));
-            }
-        }
-        "output_surjection_proofs_hash" => {
-            for o in &m.outputs {
-                b.extend_from_slice(&h(if matches!(o.asset, Conf::Conf(..)) { &o.surj } else { &[] }));
-            }
-        }
-        "outputs_hash" => {
-            for n in ["output_amounts_hash", "output_nonces_hash", "output_scripts_hash", "output_range_proofs_hash"] {
-                b.extend_from_slice(&digest(m, n, code_annex));
-            }
-        }
-        "tappath_hash" => {
-            for p in &m.path {
-                b.extend_from_slice(p);
-            }
-        }
+        (Fam::DigestOut, Arg::U32(i)) => Some(opt(m.outputs.get(*i as usize).map(|o| {
+            let p = out_pieces(o);
+            sha(&[p.amt, p.nonce, p.script, p.range].concat())
+        }))),
         _ => unreachable!(),
     }
-    h(&b)
+}
+
+/// does the digest read the annex of an input whose witness stack has the shape of the known finding
+fn annex_affected(m: &MEnv, name: &str, arg: &Arg) -> bool {
+    let nin = shown_inputs(m);
+    match name {
+        "input_annexes_hash" | "inputs_hash" | "tx_hash" | "sig_all_hash" => m.inputs[..nin].iter().any(|i| single_0x50(&i.wit)),
+        "input_hash" => match arg {
+            Arg::U32(i) => (*i as usize) < nin && single_0x50(&m.inputs[*i as usize].wit),
+            _ => false,
+        },
+        _ => false,
+    }
 }
 
 // ---------------------------------------------------------------------------------------------
@@ -1115,44 +1206,54 @@ fn eval(ctx: &mut Ctx, m: &MEnv, txt: &str, queries: &[Query], emit: bool) {
                     continue;
                 }
             };
-            if fam == Fam::OracleOnly {
-                ctx.case(Some(&format!("{txkey} {name}")));
+            if matches!(fam, Fam::Digest | Fam::DigestIn | Fam::DigestOut) {
+                let nontrivial = match (fam, arg) {
+                    (Fam::DigestIn, Arg::U32(i)) => (*i as usize) < shown_inputs(m),
+                    (Fam::DigestOut, Arg::U32(i)) => (*i as usize) < m.outputs.len(),
+                    _ => true,
+                };
+                let ckey = format!("{txkey} {name} {}", arg_txt(arg));
+                ctx.case(if nontrivial { Some(&ckey) } else { None });
                 ctx.count(&format!("reach:{name}"));
-                match name.as_str() {
-                    // two routes of the implementation
-                    "sig_all_hash" => {
-                        let other = bits(built.env.c_tx_env().sighash_all().as_byte_array());
-                        if got.as_ref() != Some(&other) {
-                            ctx.fail("route-sig_all_hash", &case, &format!("jet {} CTxEnv::sighash_all {}", show_ans(&got), show_bits(&other)));
-                        }
+                if !nontrivial {
+                    ctx.count(&format!("reach:absent:{}", if fam == Fam::DigestIn { "input-index-out-of-range" } else { "output-index-out-of-range" }));
+                }
+                if !in_domain {
+                    ctx.count("outside-domain:utxo-count-differs");
+                }
+                // two routes of the implementation
+                if name == "sig_all_hash" {
+                    let other = bits(built.env.c_tx_env().sighash_all().as_byte_array());
+                    if got.as_ref() != Some(&other) {
+                        ctx.fail("route-sig_all_hash", &case, &format!("jet {} CTxEnv::sighash_all {}", show_ans(&got), show_bits(&other)));
                     }
-                    // the id of the supplied transaction, serialised here
-                    "transaction_id" => {
-                        let lib = bits(built.tx.txid().as_byte_array());
-                        let own = bits(&txid_of(m));
-                        if got.as_ref() != Some(&lib) || lib != own {
-                            ctx.fail("getter-transaction_id", &case, &format!("jet {} Transaction::txid {} serialised here {}", show_ans(&got), show_bits(&lib), show_bits(&own)));
-                        }
+                }
+                if name == "transaction_id" {
+                    let lib = bits(built.tx.txid().as_byte_array());
+                    if got.as_ref() != Some(&lib) {
+                        ctx.fail("getter-transaction_id", &case, &format!("jet {} Transaction::txid {}", show_ans(&got), show_bits(&lib)));
                     }
-                    // digests recomputed from the supplied data
-                    _ => {
-                        if !in_domain {
-                            ctx.count("outside-domain:utxo-count-differs");
+                }
+                // the digest recomputed from the supplied data
+                let want = expect_digest(m, name, fam, arg, false);
+                let mut skip_op = false;
+                if got != want {
+                    if annex_affected(m, name, arg) && got == expect_digest(m, name, fam, arg, true) {
+                        // the known finding, seen through a digest over the annexes
+                        if in_domain {
+                            ctx.count("known:annex-single-item-0x50");
+                            ctx.fail("annex-single-item-0x50", &case, &format!("an input's witness stack is ONE item starting 0x50: {name} counts it as an annex"));
                         }
-                        let want = Some(bits(&digest(m, name, false)));
-                        if got != want {
-                            let affected = matches!(name.as_str(), "input_annexes_hash" | "inputs_hash")
-                                && m.inputs[..shown_inputs(m)].iter().any(|i| single_0x50(&i.wit));
-                            if affected && got == Some(bits(&digest(m, name, true))) {
-                                if in_domain {
-                                    ctx.count("known:annex-single-item-0x50");
-                                    ctx.fail("annex-single-item-0x50", &case, &format!("an input's witness stack is ONE item starting 0x50: {name} counts it as an annex"));
-                                }
-                            } else {
-                                ctx.fail(&format!("getter-{name}"), &case, &format!("jet returned {} supplied data say {}", show_ans(&got), show_ans(&want)));
-                            }
-                        }
+                        skip_op = true;
+                    } else {
+                        ctx.fail(&format!("getter-{name}"), &case, &format!("jet returned {} supplied data say {}", show_ans(&got), show_ans(&want)));
                     }
+                } else if annex_affected(m, name, arg) {
+                    ctx.count("annex-single-item-0x50-agrees-with-bip341");
+                }
+                if !skip_op {
+                    kept_args.push(arg_txt(arg));
+                    kept_ans.push(show_ans(&got));
                 }
                 continue;
             }
@@ -1225,7 +1326,7 @@ fn eval(ctx: &mut Ctx, m: &MEnv, txt: &str, queries: &[Query], emit: bool) {
                 ctx.sample(&format!("{short}… Q {name} {} -> {}", arg_txt(arg), show_ans(&got)));
             }
         }
-        if fam != Fam::OracleOnly && !kept_ans.is_empty() {
+        if !kept_ans.is_empty() {
             line.push_str(" Q ");
             line.push_str(name);
             for a in &kept_args {
@@ -1686,9 +1787,9 @@ fn all_queries(r: &mut Rng, m: &MEnv) -> Vec<Vec<Query>> {
     let mut g_misc: Vec<Query> = vec![];
     for &(name, _, fam, _) in JETS {
         match fam {
-            Fam::Nullary | Fam::Current | Fam::OracleOnly => first.push((name.to_string(), vec![])),
-            Fam::Input => g_in.push((name.to_string(), (0..nin + 2).chain([u32::MAX, 1 << 31]).map(Arg::U32).collect())),
-            Fam::Output => g_out.push((name.to_string(), (0..nout + 2).chain([u32::MAX, 1 << 31]).map(Arg::U32).collect())),
+            Fam::Nullary | Fam::Current | Fam::Digest => first.push((name.to_string(), vec![])),
+            Fam::Input | Fam::DigestIn => g_in.push((name.to_string(), (0..nin + 2).chain([u32::MAX, 1 << 31]).map(Arg::U32).collect())),
+            Fam::Output | Fam::DigestOut => g_out.push((name.to_string(), (0..nout + 2).chain([u32::MAX, 1 << 31]).map(Arg::U32).collect())),
             Fam::NullDatum => {
                 let mut a = vec![];
                 for i in (0..nout + 1).chain([u32::MAX]) {
